@@ -242,35 +242,29 @@ def dom_limit(ctx, prog):
                 ctx.fail(R, "shrink", "shrinking below max_height_seen does not diverge before the resize", fn=G)
     H = ctx.need_fn(R, q.STATE + "set_max_height_allowed")
     if H is not None:
-        du = DefUse(H)
-        c = H.cfg()
-        sw = None
-        for b in H.blocks:
-            t = b["term"]
-            if t["k"] == "switch":
-                e = expr(H, t["on"], du)
-                if mentions(e, lambda x: x[0] == "agg" and x[1] == "IncrStatus::Stabilising") and \
-                        mentions(e, lambda x: x[0] == "field" and x[2][-1] == "status"):
-                    sw = (b["id"], e)
+        from . import dtab
+        syms = [dtab.Sym("status", dtab.is_field_get("status"), dtab.enum_domain(prog, "incremental::state::IncrStatus"))]
+        acts = [dtab.Action("resize_ahh", lambda t: q.callee_is(t, "AdjustHeightsHeap::set_max_height_allowed")),
+                dtab.Action("resize_rch", lambda t: q.callee_is(t, "RecomputeHeap::set_max_height_allowed"))]
+        tb = dtab.table(H, syms, acts, path_sensitive=True, record_returns=False)
         calls = q.calls_in(H, "AdjustHeightsHeap::set_max_height_allowed", "RecomputeHeap::set_max_height_allowed")
         n += 1 + len(calls)
-        ctx.site(R, H, "switch status-test %s" % (sw[0] if sw else None))
-        if sw is None or len(calls) != 2:
-            ctx.fail(R, "stabilising", "State::set_max_height_allowed must test status == Stabilising and "
-                     "resize both heaps (found %d resizer calls)" % len(calls), fn=H)
-        else:
-            sb, e = sw
-            is_eq = e[0] == "call" and e[1].endswith("::eq")
-            is_ne = e[0] == "call" and e[1].endswith("::ne")
-            t_edges = [x for x in c.succ[sb] if 0 not in c.edge_values(sb, x)]
-            f_edges = [x for x in c.succ[sb] if c.edge_values(sb, x) == [0]]
-            div_side = t_edges if is_eq else f_edges if is_ne else []
-            if div_side and all(q.diverges_without_return(H, x) for x in div_side) and \
-                    all(c.dominates(sb, t.bb) for t in calls):
-                ctx.ok(R, "stabilising")
+        bad = []
+        for (st,), res in sorted(tb.items()):
+            got = dtab.summarize(res)
+            ctx.site(R, H, "status=%s -> %s" % (st, got))
+            if st == "Stabilising":
+                if got != ["diverge"]:
+                    bad.append("while Stabilising it does %s (must panic before touching the heaps)" % got)
             else:
-                ctx.fail(R, "stabilising", "the Stabilising test does not diverge before the heaps are resized",
-                         fn=H)
+                if len(got) != 1 or "resize_ahh" not in got[0] or "resize_rch" not in got[0] or "diverge" in got[0]:
+                    bad.append("with status %s it does %s (must resize both heaps)" % (st, got))
+        if len(tb) < 3 or len(calls) != 2:
+            bad.append("status test or resizer calls not found (%d cells, %d resizer calls)" % (len(tb), len(calls)))
+        if bad:
+            ctx.fail(R, "stabilising", "State::set_max_height_allowed: " + "; ".join(bad), fn=H)
+        else:
+            ctx.ok(R, "stabilising")
     ctx.floor(R, n, 8)
 
 
